@@ -1,5 +1,6 @@
 /- Helper lemmas for the size-aware models of Mpir/Model/AllocSafeMpz5.lean (mpz/import.c, gcd.c, lcm.c). -/
 import MpirProofs.Lemmas.AllocSafeSetD
+import MpirProofs.Lemmas.AllocSafeMpqInv
 import Mpir.Model.AllocSafeMpz5
 namespace Mpir.AllocSafe5
 open Mpir Mpir.AllocSafe
@@ -183,5 +184,172 @@ theorem Spec.lcmOne_spec (r u : Mpz.Mpz) (vl : Nat) (hr : 1 ≤ r.alloc) (hu : M
     unfold Nat.lcm; exact (Nat.mul_div_assoc _ (Nat.gcd_dvd_right _ _)).symm
   rw [← hl]
   simp [Mpz.toInt]
+
+/-! ## mpz/gcd.c: the zero and one-limb arms -/
+
+theorem gcdOne_tail (s : St) (g gl : Nat) (c1 c2 : Bool) (hs : s.ok = true) (hg : OWF (s.h g)) (hgl : gl < B)
+    (h1 : c1 = true) (h2 : c2 = true) :
+    Refines s ((((s.setSize g 1).chk c1).chk c2).store (s.PTR g) 0 gl) g ⟨(s.h g).buf.alloc, 1, [gl]⟩ := by
+  subst h1 h2
+  simp only [chk_true]
+  have ha : 1 ≤ (s.h g).buf.alloc := by have := hg.2.1; simpa [view] using this
+  have hb : BWF ((s.setSize g 1).h g).buf := by simpa using hg.1
+  have W0 := Wrote.refl (s.setSize g 1) g 1 (by simpa using hs) hb (by simpa using ha)
+  have hlen : (((s.setSize g 1).h g).buf.limbs.take 1).length = 1 := by
+    rw [List.length_take, hb.1]; simp; omega
+  generalize ((s.setSize g 1).h g).buf.limbs.take 1 = R0 at W0 hlen
+  obtain ⟨r, hr⟩ := List.length_eq_one_iff.mp hlen
+  subst hr
+  have W1 := W0.store_set 0 gl (by simp) hgl
+  have hp : (s.setSize g 1).PTR g = s.PTR g := by simp [St.PTR]
+  rw [hp] at W1
+  have R := W1.refines 1 (by simp [St.store]) (by simp)
+  simp only [List.set_cons_zero, setSize_buf] at R
+  exact ⟨R.ok, by simpa using R.view, R.bwf, fun x hx => (R.frame x hx).trans (setSize_other _ _ _ hx)⟩
+
+
+/-- gcd.c:65-70: u has one limb, v ≠ 0 -/
+theorem gcdOneU_refines (s : St) (g u v : Nat) (hs : s.ok = true) (hg : OWF (s.h g)) (hu : OWF (s.h u)) (hv : OWF (s.h v))
+    (hu1 : (s.h u).size.natAbs = 1) (hv0 : (s.h v).size ≠ 0) :
+    Refines s (mpz_gcd s g u v) g
+      ⟨(s.h g).buf.alloc, 1, [Nat.gcd (val (view (s.h v)).d) ((view (s.h u)).d.headD junk)]⟩ := by
+  have hvn : ¬ (s.h v).size.natAbs = 0 := by omega
+  have hfu := view_fit hu
+  have hfv := view_fit hv
+  have hul := view_d_length hu
+  obtain ⟨x, hd⟩ := List.length_eq_one_iff.mp (hul.trans hu1)
+  have hx : x < B := view_limbs hu x (by rw [hd]; simp)
+  have hx0 : 0 < x := by
+    have := hu.2.2.2.2.2
+    rw [hd] at this
+    rcases Nat.eq_zero_or_pos x with h | h
+    · subst h; simp at this
+    · exact h
+  have hgl : Nat.gcd (val (view (s.h v)).d) x < B := Nat.lt_of_le_of_lt (Nat.gcd_le_right _ hx0) hx
+  have T := gcdOne_tail s g (Nat.gcd (val (view (s.h v)).d) x)
+    ((s.setSize g 1).rdOk ((s.PTR u).add 0) 1) (((s.setSize g 1).chk ((s.setSize g 1).rdOk ((s.PTR u).add 0) 1)).rdOk (s.PTR v) (s.h v).size.natAbs)
+    hs hg hgl
+    (by simp [St.rdOk, St.live, St.PTR, Ptr.add, Buf.read]; omega)
+    (by simp [St.rdOk, St.live, St.PTR, Ptr.add, Buf.read]; omega)
+  rw [hd]
+  simp only [List.headD_cons]
+  have hd' : (s.h u).buf.limbs.take 1 = [x] := by
+    have : (view (s.h u)).d = (s.h u).buf.limbs.take (s.h u).size.natAbs := rfl
+    rw [this, hu1] at hd; exact hd
+  have e : mpz_gcd s g u v = ((((s.setSize g 1).chk ((s.setSize g 1).rdOk ((s.PTR u).add 0) 1)).chk
+      (((s.setSize g 1).chk ((s.setSize g 1).rdOk ((s.PTR u).add 0) 1)).rdOk (s.PTR v) (s.h v).size.natAbs)).store (s.PTR g) 0
+      (Nat.gcd (val (view (s.h v)).d) x)) := by
+    unfold mpz_gcd gcd_
+    simp [St.ABSIZ, hu1, hvn, St.load, mpn_gcd_1, St.rd, Buf.read, St.PTR, Ptr.add, hd', view]
+  rw [e]; exact T
+
+/-- gcd.c:72-77: v has one limb, u at least two -/
+theorem gcdOneV_refines (s : St) (g u v : Nat) (hs : s.ok = true) (hg : OWF (s.h g)) (hu : OWF (s.h u)) (hv : OWF (s.h v))
+    (hv1 : (s.h v).size.natAbs = 1) (hu2 : 2 ≤ (s.h u).size.natAbs) :
+    Refines s (mpz_gcd s g u v) g
+      ⟨(s.h g).buf.alloc, 1, [Nat.gcd (val (view (s.h u)).d) ((view (s.h v)).d.headD junk)]⟩ := by
+  have hun : ¬ (s.h u).size.natAbs = 0 := by omega
+  have hun1 : ¬ (s.h u).size.natAbs = 1 := by omega
+  have hfu := view_fit hu
+  have hfv := view_fit hv
+  have hvl := view_d_length hv
+  obtain ⟨x, hd⟩ := List.length_eq_one_iff.mp (hvl.trans hv1)
+  have hx : x < B := view_limbs hv x (by rw [hd]; simp)
+  have hx0 : 0 < x := by
+    have := hv.2.2.2.2.2
+    rw [hd] at this
+    rcases Nat.eq_zero_or_pos x with h | h
+    · subst h; simp at this
+    · exact h
+  have hgl : Nat.gcd (val (view (s.h u)).d) x < B := Nat.lt_of_le_of_lt (Nat.gcd_le_right _ hx0) hx
+  have T := gcdOne_tail s g (Nat.gcd (val (view (s.h u)).d) x)
+    ((s.setSize g 1).rdOk ((s.PTR v).add 0) 1) (((s.setSize g 1).chk ((s.setSize g 1).rdOk ((s.PTR v).add 0) 1)).rdOk (s.PTR u) (s.h u).size.natAbs)
+    hs hg hgl
+    (by simp [St.rdOk, St.live, St.PTR, Ptr.add, Buf.read]; omega)
+    (by simp [St.rdOk, St.live, St.PTR, Ptr.add, Buf.read]; omega)
+  rw [hd]
+  simp only [List.headD_cons]
+  have hd' : (s.h v).buf.limbs.take 1 = [x] := by
+    have : (view (s.h v)).d = (s.h v).buf.limbs.take (s.h v).size.natAbs := rfl
+    rw [this, hv1] at hd; exact hd
+  have e : mpz_gcd s g u v = ((((s.setSize g 1).chk ((s.setSize g 1).rdOk ((s.PTR v).add 0) 1)).chk
+      (((s.setSize g 1).chk ((s.setSize g 1).rdOk ((s.PTR v).add 0) 1)).rdOk (s.PTR u) (s.h u).size.natAbs)).store (s.PTR g) 0
+      (Nat.gcd (val (view (s.h u)).d) x)) := by
+    unfold mpz_gcd gcd_
+    simp [St.ABSIZ, hv1, hun, hun1, St.load, mpn_gcd_1, St.rd, Buf.read, St.PTR, Ptr.add, hd', view]
+  rw [e]; exact T
+
+/-- gcd.c:44-52 / 55-63: one operand is zero, the other (`x`) is copied; `SIZ (g)` is stored BEFORE `MPZ_REALLOC (g, n)` -/
+theorem gcdZero_refines (s : St) (g x : Nat) (hs : s.ok = true) (hg : OWF (s.h g)) (hx : OWF (s.h x)) :
+    Refines s
+      (if g == x then s.setSize g ((s.h x).size.natAbs : Nat)
+       else MPN_COPY (MPZ_REALLOC (s.setSize g ((s.h x).size.natAbs : Nat)) g (s.h x).size.natAbs)
+         ((MPZ_REALLOC (s.setSize g ((s.h x).size.natAbs : Nat)) g (s.h x).size.natAbs).PTR g) (s.PTR x) (s.h x).size.natAbs) g
+      ⟨max (s.h g).buf.alloc (s.h x).size.natAbs, ((s.h x).size.natAbs : Nat), (view (s.h x)).d⟩ := by
+  have hfx := view_fit hx
+  have ha : 1 ≤ (s.h g).buf.alloc := by have := hg.2.1; simpa [view] using this
+  by_cases h : g = x
+  · subst h
+    simp only [beq_self_eq_true, if_true]
+    refine ⟨by simpa using hs, ?_, by simpa using hg.1, fun y hy => setSize_other _ _ _ hy⟩
+    simp [view, Nat.max_eq_left hfx, Int.natAbs_abs]
+  · have h' : (g == x) = false := by simpa using h
+    simp only [h', Bool.false_eq_true, if_false]
+    have hxg : x ≠ g := fun e => h e.symm
+    generalize hn : (s.h x).size.natAbs = n at *
+    have G := MPZ_REALLOC_grown2 (s.setSize g (n : Nat)) g n (by simp)
+    have hox : (MPZ_REALLOC (s.setSize g (n : Nat)) g n).h x = s.h x := by
+      rw [G.other x hxg, setSize_other _ _ _ hxg]
+    have hrd : (MPZ_REALLOC (s.setSize g (n : Nat)) g n).rd (s.PTR x) n = (view (s.h x)).d := by
+      simp [St.rd, St.PTR, Buf.read, hox, view, hn]
+    have hok : (MPZ_REALLOC (s.setSize g (n : Nat)) g n).rdOk (s.PTR x) n = true := by
+      simp [St.rdOk, St.live, St.PTR, Buf.read, hox]; omega
+    have hb := G.bwf g (by simpa using hg.1)
+    have hsz : ((MPZ_REALLOC (s.setSize g (n : Nat)) g n).h g).size = (n : Nat) := by rw [G.size]; simp
+    have hal : ((MPZ_REALLOC (s.setSize g (n : Nat)) g n).h g).buf.alloc = max (s.h g).buf.alloc n := by
+      rw [G.alloc, grow_alloc_max _ _ (by simpa [view] using ha)]; simp [view]
+    have hl : (view (s.h x)).d.length = n := by rw [view_d_length hx, hn]
+    unfold MPN_COPY
+    rw [hrd, hok]
+    have W := Wrote.fresh (MPZ_REALLOC (s.setSize g (n : Nat)) g n) g (view (s.h x)).d true (by rw [G.ok]; simpa using hs) rfl hb
+      (view_limbs hx) (by rw [hl]; exact G.room)
+    have R := W.refines (n : Nat) (by simpa using hsz) (by simp [hl])
+    rw [hal] at R
+    simp only [Int.natAbs_natCast] at R
+    rw [List.take_of_length_le (by omega)] at R
+    refine ⟨R.ok, R.view, R.bwf, fun y hy => ?_⟩
+    rw [R.frame y hy, G.other y hy, setSize_other _ _ _ hy]
+
+theorem WF_one (a gl : Nat) (ha : 1 ≤ a) (h0 : 0 < gl) (hB : gl < B) : Mpz.WF ⟨a, 1, [gl]⟩ :=
+  ⟨ha, by simpa using ha, by simp, limb_singleton hB, by simp; omega⟩
+
+/-- the one-limb arms of mpz_gcd (gcd.c:65-77) in one statement -/
+theorem gcdOne_refines (s : St) (g u v : Nat) (hs : s.ok = true) (hg : OWF (s.h g)) (hu : OWF (s.h u)) (hv : OWF (s.h v))
+    (hu0 : (s.h u).size ≠ 0) (hv0 : (s.h v).size ≠ 0) (h1 : (s.h u).size.natAbs = 1 ∨ (s.h v).size.natAbs = 1) :
+    Refines s (mpz_gcd s g u v) g ⟨(s.h g).buf.alloc, 1, [Nat.gcd (val (view (s.h u)).d) (val (view (s.h v)).d)]⟩ ∧
+    Mpz.WF ⟨(s.h g).buf.alloc, 1, [Nat.gcd (val (view (s.h u)).d) (val (view (s.h v)).d)]⟩ := by
+  have ha : 1 ≤ (s.h g).buf.alloc := by have := hg.2.1; simpa [view] using this
+  have one : ∀ {y : Nat}, OWF (s.h y) → (s.h y).size.natAbs = 1 →
+      val (view (s.h y)).d = (view (s.h y)).d.headD junk ∧ 0 < val (view (s.h y)).d ∧ val (view (s.h y)).d < B := by
+    intro y hy hy1
+    obtain ⟨x, hd⟩ := List.length_eq_one_iff.mp ((view_d_length hy).trans hy1)
+    have hx : x < B := view_limbs hy x (by rw [hd]; simp)
+    have hx0 : 0 < x := by
+      have := hy.2.2.2.2.2
+      rw [hd] at this
+      rcases Nat.eq_zero_or_pos x with h | h
+      · subst h; simp at this
+      · exact h
+    rw [hd]; simp [val, hx, hx0]
+  by_cases hu1 : (s.h u).size.natAbs = 1
+  · obtain ⟨e, p, b⟩ := one hu hu1
+    have R := gcdOneU_refines s g u v hs hg hu hv hu1 hv0
+    rw [← e, Nat.gcd_comm] at R
+    exact ⟨R, WF_one _ _ ha (Nat.gcd_pos_of_pos_left _ p) (Nat.lt_of_le_of_lt (Nat.gcd_le_left _ p) b)⟩
+  · have hv1 : (s.h v).size.natAbs = 1 := by rcases h1 with h | h; exact absurd h hu1; exact h
+    obtain ⟨e, p, b⟩ := one hv hv1
+    have R := gcdOneV_refines s g u v hs hg hu hv hv1 (by omega)
+    rw [← e] at R
+    exact ⟨R, WF_one _ _ ha (Nat.gcd_pos_of_pos_right _ p) (Nat.lt_of_le_of_lt (Nat.gcd_le_right _ p) b)⟩
 
 end Mpir.AllocSafe5
